@@ -92,15 +92,13 @@ theorem char_facts {c : Char} (h1 : '1' ≤ c) (h9 : c ≤ '9') :
   have h1' : 49 ≤ c.toNat := h1
   have h9' : c.toNat ≤ 57 := h9
   refine ⟨?_, ?_, ?_, ?_, ?_⟩
-  · simp only [isPySpace, Bool.or_eq_false_iff, beq_eq_false_iff_ne, ne_eq, Bool.and_eq_false_iff, decide_eq_false_iff_not]
-    refine ⟨⟨⟨⟨⟨⟨?_, ?_⟩, ?_⟩, ?_⟩, ?_⟩, ?_⟩, ?_⟩
-    · rintro rfl; revert h1'; decide
-    · rintro rfl; revert h1'; decide
-    · rintro rfl; revert h1'; decide
-    · rintro rfl; revert h1'; decide
-    · omega
-    · omega
-    · omega
+  · have h0 : c ≠ ' ' := by rintro rfl; revert h1'; decide
+    have ht : c ≠ '\t' := by rintro rfl; revert h1'; decide
+    have hn : c ≠ '\n' := by rintro rfl; revert h1'; decide
+    have hr : c ≠ '\r' := by rintro rfl; revert h1'; decide
+    simp only [isPySpace, isUniSpace, Bool.or_eq_false_iff, beq_eq_false_iff_ne, ne_eq, Bool.and_eq_false_iff,
+      decide_eq_false_iff_not]
+    refine ⟨⟨⟨⟨⟨⟨⟨h0, ht⟩, hn⟩, hr⟩, ?_⟩, ?_⟩, ?_⟩, ⟨⟨⟨⟨⟨⟨⟨⟨?_, ?_⟩, ?_⟩, ?_⟩, ?_⟩, ?_⟩, ?_⟩, ?_⟩, ?_⟩⟩ <;> omega
   · rintro rfl; revert h1'; decide
   · rintro rfl; revert h1'; decide
   · simp only [isDigit, Bool.and_eq_true, decide_eq_true_eq]
@@ -110,6 +108,21 @@ theorem char_facts {c : Char} (h1 : '1' ≤ c) (h9 : c ≤ '9') :
     · exact h9
   · show 1 ≤ c.toNat - 48
     omega
+
+/-- what `int()` parses of a text that starts with a digit `1`..`9` still starts with that digit -/
+theorem numText_pos {c : Char} (h1 : '1' ≤ c) (h9 : c ≤ '9') (r : Str) :
+    numText (c :: r) = c :: dropWhileEnd isCSpace (r.map foldChar) := by
+  have h1' : 49 ≤ c.toNat := h1
+  have h9' : c.toNat ≤ 57 := h9
+  have hf : foldChar c = c := by simp [foldChar, show c.toNat < 128 by omega]
+  have hcs : isCSpace c = false := by
+    have h0 : c ≠ ' ' := by rintro rfl; revert h1'; decide
+    simp only [isCSpace, Bool.or_eq_false_iff, beq_eq_false_iff_ne, ne_eq, Bool.and_eq_false_iff,
+      decide_eq_false_iff_not]
+    exact ⟨h0, by omega⟩
+  unfold numText
+  simp only [List.map_cons, hf, List.dropWhile, hcs]
+  exact dropWhileEnd_cons hcs _
 
 theorem foldl_digits_ge (ds : List Char) : ∀ acc : Nat,
     acc ≤ ds.foldl (fun acc c => acc * 10 + digitVal c) acc := by
@@ -124,18 +137,17 @@ theorem foldl_digits_ge (ds : List Char) : ∀ acc : Nat,
 theorem pyInt_pos {t : Str} (ht : PosText t) {i : Int} (h : pyInt t = .ok i) : 1 ≤ i := by
   obtain ⟨c, r, rfl, h1, h9⟩ := ht
   obtain ⟨hsp, hm, hp, hd, hv⟩ := char_facts h1 h9
-  have hstrip : strip (c :: r) = c :: dropWhileEnd isPySpace r := by
-    simp [strip, List.dropWhile, hsp, dropWhileEnd_cons hsp]
-  have hmatch : pyInt.match_1 (fun _ => Bool × List Char) (c :: dropWhileEnd isPySpace r)
+  have hstrip : numText (c :: r) = c :: dropWhileEnd isCSpace (r.map foldChar) := numText_pos h1 h9 r
+  have hmatch : pyInt.match_1 (fun _ => Bool × List Char) (c :: dropWhileEnd isCSpace (r.map foldChar))
       (fun r => (true, r)) (fun r => (false, r)) (fun r => (false, r))
-      = (false, c :: dropWhileEnd isPySpace r) := by
+      = (false, c :: dropWhileEnd isCSpace (r.map foldChar)) := by
     split
     · next heq => injection heq with h2 _; exact absurd h2 hm
     · next heq => injection heq with h2 _; exact absurd h2 hp
     · rfl
   unfold pyInt at h
   simp only [hstrip, hmatch, digitsWithUnderscores, digitsGo, hd, if_true] at h
-  cases hg : digitsGo 1 (dropWhileEnd isPySpace r) with
+  cases hg : digitsGo 1 (dropWhileEnd isCSpace (r.map foldChar)) with
   | none => simp [hg] at h
   | some ds =>
     simp only [hg, Option.map_some] at h
